@@ -35,7 +35,7 @@ def _init_certs():
                                ('server_expired', 'expired', 'test.com', []), ('server_notyet', 'notyet', 'test.com', []),
                                ('client', 'ok', None, ['operator']), ('client_expired', 'expired', None, ['operator']),
                                ('client_notyet', 'notyet', None, ['operator']), ('client_otherrole', 'ok', None, ['viewer']),
-                               ('client_roleless', 'ok', 'client.example', [])]:
+                               ('client_roleless', 'ok', 'client.example', []), ('client_tworoles', 'ok', None, ['operator', 'engineer'])]:
         _reg(f'ca2/{n}', f'{o}/ca2/{n}_cert.pem', f'{o}/ca2/{n}_key.pem', 'ca2', val, san, roles)
     for n, val, san, roles in [('client', 'ok', None, ['operator']), ('client_expired', 'expired', None, ['operator']),
                                ('client_notyet', 'notyet', None, ['operator']), ('client_otherrole', 'ok', None, ['viewer']),
@@ -123,6 +123,7 @@ def grid(full):
         ('wrong-authority', 'repoCA', 'repo/server', 'ca2/client'), ('wrong-authority2', 'ca2', 'ca2/server', 'repo/client'),
         ('expired', 'ca2', 'ca2/server', 'ca2/client_expired'), ('not-yet-valid', 'ca2', 'ca2/server', 'ca2/client_notyet'),
         ('role-less', 'ca2', 'ca2/server', 'ca2/client_roleless'), ('other-role', 'ca2', 'ca2/server', 'ca2/client_otherrole'),
+        ('two-roles', 'ca2', 'ca2/server', 'ca2/client_tworoles'),
     ]
     server_ss = [  # (label, configured peer cert, local, presented)
         ('valid', 'repo/entity1', 'repo/entity2', 'repo/entity1'), ('valid2', 'ss/client', 'ss/server', 'ss/client'),
@@ -245,6 +246,7 @@ def run(ctx):
                 impl[k] = i2
     n_spec = n_model = 0
     failing = []
+    model_only = []
     for c, i, b in zip(cells, impl, both):
         model, spec = b.split('#')
         d = judge(c, i, spec)
@@ -253,13 +255,17 @@ def run(ctx):
             failing.append((c, i, spec, d))
         elif judge(c, i, model):
             n_model += 1
-            if n_model == 1:
-                ctx.violation('model-differs-from-impl', f'{c["label"]}: {harness_line(c)}', {'cases': [c], 'impl': i, 'model': model, 'spec': spec}, no_failing_input=True)
+            model_only.append((c, i, model, spec))
     # report the simplest representatives first: independent peer, valid certificate
-    failing.sort(key=lambda f: (f[0]['peer'] != 'openssl', f[0]['label'] not in ('valid', 'valid2'), f[0]['side'] != 'server', not f[0]['authz']))
+    # (a cell that agrees with the Spec but not with the model is only reported when nothing concrete failed)
+    if model_only and not failing:
+        c, i, model, spec = model_only[0]
+        ctx.violation('model-differs-from-impl', f'{c["label"]}: {harness_line(c)}', {'cases': [c], 'impl': i, 'model': model, 'spec': spec}, no_failing_input=True)
+    failing.sort(key=lambda f: (f[0]['peer'] != 'openssl', not (f[1].startswith('OK') and f[2] == 'REFUSED'), f[1].split(':')[0] == f[2].split(':')[0],
+                                f[0]['label'] not in ('valid', 'valid2'), f[0]['side'] != 'server', f[0]['mode'] != 'ca', not f[0]['authz']))
     seen = set()
     for c, i, spec, d in failing:
-        cls = (c['side'], c['min'], c['label'], c['offer'], i.split(':')[0])
+        cls = (c['side'], c['min'], c['label'].rstrip('2'), c['offer'], i.split(':')[0])
         if cls in seen or len(seen) >= 4:
             continue
         seen.add(cls)
@@ -274,7 +280,7 @@ def run(ctx):
             classes[k] = classes.get(k, 0) + 1
     if not ctx.replay:
         need = ['side:server', 'side:client', 'min:12', 'min:13', 'mode:ca', 'mode:ss', 'peer:openssl', 'peer:rodbus', 'peer:plain', 'offer:12', 'offer:13',
-                'offer:both', 'cert:valid', 'cert:wrong-authority', 'cert:wrong-name', 'cert:expired', 'cert:not-yet-valid', 'cert:role-less', 'cert:other-role',
+                'offer:both', 'cert:valid', 'cert:wrong-authority', 'cert:wrong-name', 'cert:expired', 'cert:not-yet-valid', 'cert:role-less', 'cert:other-role', 'cert:two-roles',
                 'expected:OK', 'expected:REFUSED']
         ctx.oblige('grid-reaches-expected-classes', all(classes.get(k, 0) >= 1 for k in need), str({k: classes.get(k, 0) for k in need}))
     ctx.coverage.update({
